@@ -330,10 +330,10 @@ async fn quiet(addr: SocketAddr, certs: &Certs, outages: usize, attempts: u32) -
 /// that every reconnection attempt fails at once (a dead port would cost a QUIC handshake timeout per attempt)
 /// The impostor is a bare QUIC endpoint that notes when each connection attempt arrives (the client refuses its
 /// certificate, so every attempt fails with a connection error).
-struct Gone { rt: Option<tokio::runtime::Runtime>, addr: SocketAddr, other: Certs, seen: std::sync::Arc<std::sync::Mutex<Vec<std::time::Instant>>> }
+struct Gone { rt: Option<crate::e2e::Rt>, addr: SocketAddr, other: Certs, seen: std::sync::Arc<std::sync::Mutex<Vec<std::time::Instant>>> }
 impl Gone {
     fn shutdown_background(&mut self) {
-        if let Some(rt) = self.rt.take() { rt.shutdown_background(); }
+        if let Some(rt) = self.rt.take() { drop(rt); }
         std::thread::sleep(Duration::from_millis(200));
         let cert = rustls::Certificate(std::fs::read(self.other.server("localhost.der")).expect("impostor certificate"));
         let key = rustls::PrivateKey(std::fs::read(self.other.server("localhost.key.der")).expect("impostor key"));
